@@ -64,7 +64,7 @@ def convSpecs : List (String × SpecFn) := [
       if a.getD 0 "" == "-Inf" then some (expectVal (some res) (.inf true)) else
       let m ← (a.getD 0 "").toNat?; let e2 ← decInt (a.getD 1 ""); let neg := a.getD 2 "" == "T"
       if m == 0 then some (if res.isZero then none else some "zero must convert to zero") else
-      if e2 > 20000 || e2 < -20000 then none else
+      if e2 > 30000 || e2 < -30000 then none else
       let v := (m : Rat) * pow2 e2
       -- representable range only
       let l := ilog10 v
